@@ -401,9 +401,23 @@ class Driver:
                 s.done = "loophead"
                 return [s]
             return self.while_loop(st, s, func)
+        if isinstance(st, ast.Break):
+            s.done = "break"
+            return [s]
         if isinstance(st, ast.For):
             if _effect_free(st.body) or _flush_loop(st, s):
                 return [s]
+            if not st.orelse and isinstance(st.target, ast.Name) and isinstance(st.iter, ast.Name):
+                # for T in SEQ: BODY   ==   i = 0 ; while i < len(SEQ): T = SEQ[i] ; i += 1 ; BODY    (break leaves the loop)
+                self._forvar = getattr(self, "_forvar", 0) + 1
+                iv = "__for%d" % self._forvar
+                src = "%s = 0\nwhile %s < len(%s):\n    %s = %s[%s]\n    %s += 1\n    pass\n" % (iv, iv, st.iter.id, st.target.id, st.iter.id, iv, iv)
+                mod = ast.parse(src)
+                for n in ast.walk(mod):
+                    ast.copy_location(n, st)
+                wl = mod.body[1]
+                wl.body = wl.body[:-1] + list(st.body)
+                return self.block(mod.body, [s], func)
             raise AnalysisError("%s:%d unsupported for loop" % (func.qualname, st.lineno))
         raise AnalysisError("%s:%d unsupported statement %s" % (func.qualname, st.lineno, type(st).__name__))
 
@@ -426,6 +440,11 @@ class Driver:
                     else:
                         for s3 in self.assume(s2, c, True):
                             s3.notes.append("loop at line %d unrolled %d times (deeper iterations not explored)" % (st.lineno, unroll))
+            for x in nxt:
+                if x.done == "break":
+                    x.done = None
+                    out.append(x)           # left the loop
+            nxt = [x for x in nxt if not any(x is y for y in out)]
             cur = [x for x in nxt if not x.done]
             out.extend(x for x in nxt if x.done)
             if not cur:
@@ -1044,7 +1063,11 @@ class Driver:
             params = f.params
             defaults = f.defaults()
             saved_env = s.env
-            env = {params[0]: SelfRef()}
+            if f.is_static:
+                env = {}
+                params = ["<static>"] + list(params)
+            else:
+                env = {params[0]: SelfRef()}
             for pn, a in zip(params[1:], args):
                 env[pn] = a
             for pn in params[1 + len(args):]:
